@@ -5,7 +5,7 @@
 # prints: MUTANT <patch> <PROP> => caught|MISSED|build-failed (exit code of the check)
 set -u
 PATCH="$(readlink -f "$1")"; PROP="$2"; SCALE="${3:-1}"
-ROOT=/var/tmp/um-mut
+ROOT=${UM_MUT_ROOT:-/var/tmp/um-mut}
 mkdir -p $ROOT
 exec 9>$ROOT/lock; flock 9
 if [ ! -d $ROOT/repo/.git ] && [ ! -f $ROOT/repo/.git ]; then
